@@ -23,13 +23,13 @@ RULE = (
     "payload values (so interpolation, not hold, decides the result); distinct = hash of the drawn spec."
 )
 ASSUMPTIONS = [
-    "query positions are in-contract: at least `window` buffer entries (defaults count, they arrive at t=0) have arrived by ts_start",
+    "older window entries are asserted only when at least `window` buffer entries (defaults count, they arrive at t=0) have arrived by ts_start; the newest entry is asserted everywhere",
     "older window entries are asserted only for strictly periodic senders when the selected slice holds real messages only",
     "int32 payload leaves are compared with a slack of 1 (the implementation truncates the interpolated float)",
-    "float32 time stamps: tolerance = 16 ulp(ts)/segment length x payload range + 1e-5 x range",
+    "float32: tolerance = 16 ulp(ts)/segment length x payload range + 1e-5 x range + 4 eps32 x payload magnitude",
 ]
 
-_POS = ["inside", "inside", "inside", "on_msg", "after_last", "before_first"]
+_POS = ["inside", "inside", "inside", "on_msg", "after_last", "before_first", "early", "early"]
 
 
 @st.composite
@@ -152,6 +152,19 @@ def check(case) -> CaseResult:
             seg = (first_real - 1, first_real)
         else:
             pos = "after_last"
+    if pos == "early":
+        # fewer than `window` entries have arrived (jittered senders / delays near max can do that in a real run): the
+        # newest entry is still the signal at ts_start; older entries are not asserted there
+        cands = [i for i in range(0, min(window - 1, cum - 1))]
+        if cands and arr[cands[-1] + 1] > arr[cands[0]]:
+            kk = cands[k % len(cands)]
+            ts_start = arr[kk] + case["frac"] * (arr[kk + 1] - arr[kk])
+            seg = (kk, kk + 1)
+        elif arr[0] > 1e-3:
+            ts_start = case["frac"] * arr[0]
+            seg = (0, 0)
+        else:
+            pos = "after_last"
     if pos == "after_last":
         ts_start = arr[-1] + case["frac"] * 2 * period
         seg = (cum - 1, cum - 1)
@@ -163,9 +176,9 @@ def check(case) -> CaseResult:
     margin = 4 * _ulp32(max(t, arr.max()))
     near_tie = bool((onp.abs(arr - t) < margin).any()) and pos != "on_msg"
     n_arrived = int((arr <= t).sum()) if pos != "on_msg" else seg[0] + 1
-    if n_arrived < window:
-        res.rejected = "out of contract: fewer than `window` entries arrived"
-        return res
+    few = n_arrived < window
+    if few:
+        res.label("fewer_than_window_arrived")
     if near_tie:
         res.label("near_tie_skipped")
         return res
@@ -192,7 +205,7 @@ def check(case) -> CaseResult:
         v = data[leaf].astype(onp.float64).reshape(cum, -1)[kidx_u]  # (knots, features)
         return onp.stack([onp.interp(tq, kt_u, v[:, j]) for j in range(v.shape[1])], axis=-1)  # (len(tq), features)
 
-    slice_real_only = all(seq[i] >= 0 for i in range(n_arrived - window, n_arrived))
+    slice_real_only = (not few) and all(seq[i] >= 0 for i in range(n_arrived - window, n_arrived))
     for leaf, lf in zip(sorted(data), case["leaves"]):
         got = onp.asarray(out.data[leaf])
         want_shape = tuple([window] + lf["shape"])
@@ -206,7 +219,8 @@ def check(case) -> CaseResult:
         vals = data[leaf].astype(onp.float64).reshape(cum, -1)
         rng_ = float(vals.max() - vals.min()) + 1e-9
         min_seg = float(onp.min(onp.diff(kt_u))) if len(kt_u) > 1 else period
-        tol = 16 * _ulp32(max(t, arr.max())) / max(min_seg, 1e-6) * rng_ + 1e-5 * rng_
+        # time resolution x slope, plus the float32 rounding of the values themselves (4 eps x magnitude)
+        tol = 16 * _ulp32(max(t, arr.max())) / max(min_seg, 1e-6) * rng_ + 1e-5 * rng_ + 4 * 1.2e-7 * float(onp.abs(vals).max())
         slack = 1.0 if lf["dtype"] == "int32" else 0.0
         # newest entry == signal(t)
         want_new = signal(leaf, onp.array([t]))[0]
@@ -267,7 +281,7 @@ def check(case) -> CaseResult:
             ).astype(onp.float64).reshape(window, -1)[-1]
             fp, fm = f(a0 + h_a), f(a0 - h_a)
             rng_ = float(vals.max() - vals.min()) + 1e-9
-            tol = 16 * _ulp32(max(t, arr.max())) / max(seg_len, 1e-6) * rng_ + 1e-5 * rng_
+            tol = 16 * _ulp32(max(t, arr.max())) / max(seg_len, 1e-6) * rng_ + 1e-5 * rng_ + 4 * 1.2e-7 * float(onp.abs(vals).max())
             if not (onp.abs(fp - fm) <= L * 2 * h_d + 2 * tol).all():
                 res.fail("continuous_in_delay", dict(interp=interp, jump=float(onp.abs(fp - fm).max()), bound=float((L * 2 * h_d).max())))
             # gradient
